@@ -131,15 +131,31 @@ def build_driver(name):
 # --------------------------------------------------------------------------- obligations
 
 def check_obligations(spec, rundir):
-    """Compile Props/Cxx.v (after its dependencies) and read the Print Assumptions output."""
-    pf = spec["props_file"]
-    src = open(os.path.join(COQ, pf)).read()
-    names = re.findall(r"^\s*(?:Theorem|Corollary)\s+([A-Za-z0-9_']+)", src, re.M)
-    vo_targets = [pf[:-2] + ".vo"] + spec.get("coq_targets", [])
+    """Compile Props/Cxx.v (after its dependencies) and read the Print Assumptions output.  A spec may
+    name further theorem files (`extra_props_files`, e.g. theorems linking this property's model to
+    another group's model): they are obligations too, checked the same way, but kept in files of their
+    own so that a change of the foreign model cannot take the property's other theorems down."""
+    files = [spec["props_file"]] + list(spec.get("extra_props_files", []))
+    vo_targets = [f[:-2] + ".vo" for f in files] + spec.get("coq_targets", [])
     rc, out, dt = build_coq(vo_targets)
-    res = {"theorems": names, "make_rc": rc, "make_s": round(dt, 1), "failed": [], "axioms": {}}
+    res = {"theorems": [], "make_rc": rc, "make_s": round(dt, 1), "failed": [], "axioms": {}, "props_rc": 0}
     if rc != 0:
         res["make_tail"] = out[-3000:]
+    for pf in files:
+        one = check_obligations_file(pf, rundir)
+        res["theorems"] += one["theorems"]
+        res["failed"] += one["failed"]
+        res["axioms"].update(one["axioms"])
+        if one["props_rc"] != 0:
+            res["props_rc"] = one["props_rc"]
+            res["props_tail"] = one.get("props_tail", "")
+    return res
+
+
+def check_obligations_file(pf, rundir):
+    src = open(os.path.join(COQ, pf)).read()
+    names = re.findall(r"^\s*(?:Theorem|Corollary)\s+([A-Za-z0-9_']+)", src, re.M)
+    res = {"theorems": names, "failed": [], "axioms": {}}
     # Print Assumptions output: re-run coqc on the (cheap) property file into a scratch copy
     scratch = os.path.join(rundir, "props_out")
     os.makedirs(scratch, exist_ok=True)
@@ -149,19 +165,28 @@ def check_obligations(spec, rundir):
     if rc2 != 0:
         res["props_tail"] = out2[-3000:]
         # which theorem failed: the first whose name appears after the error location is unknown; report all
-        res["failed"] = names[:] if names else ["<file>"]
+        res["failed"] = names[:] if names else ["<file %s>" % pf]
         m = re.search(r'line (\d+)', out2)
         if m:
+            # coqc stops at the first error: every theorem closed (Qed/Defined) above the error line was
+            # accepted; the one open at the error line and all later ones were not checked
             ln = int(m.group(1))
-            before = src.split("\n")[:ln]
-            got = re.findall(r"^\s*(?:Theorem|Corollary)\s+([A-Za-z0-9_']+)", "\n".join(before), re.M)
-            if got:
-                res["failed"] = [got[-1]]
+            lines = src.split("\n")
+            done, cur = [], None
+            for i, l in enumerate(lines[:ln - 1]):
+                mm = re.match(r"\s*(?:Theorem|Corollary)\s+([A-Za-z0-9_']+)", l)
+                if mm:
+                    cur = mm.group(1)
+                if cur and re.search(r"\b(Qed|Defined)\.", l):
+                    done.append(cur)
+                    cur = None
+            res["failed"] = [n for n in names if n not in done]
         return res
     # split output per Print Assumptions
     blocks = re.split(r"(?=Closed under the global context|Axioms:)", out2)
     blocks = [b for b in blocks if b.startswith("Closed") or b.startswith("Axioms:")]
-    printed = re.findall(r"^\s*Print Assumptions\s+([A-Za-z0-9_']+)", src, re.M)
+    printed = re.findall(r"^\s*Print Assumptions\s+([A-Za-z0-9_'.]+?)\.?\s*$", src, re.M)
+    printed = [p_.split(".")[-1] for p_ in printed]
     for i, nm in enumerate(printed):
         if i >= len(blocks):
             res["failed"].append(nm)
@@ -178,7 +203,6 @@ def check_obligations(spec, rundir):
     for nm in names:
         if nm not in printed:
             res["failed"].append(nm + " (no Print Assumptions)")
-    # forbidden vernacular anywhere in the development this property uses
     return res
 
 
